@@ -499,6 +499,9 @@ def _init_component(
                 f"{qualified_name(child_config)}"
             )
 
+        # Don't modify the configuration passed in by the caller
+        child_config = dict(child_config)
+
         # If the type was specified only via an alias, use that as a type
         child_config.setdefault("type", alias)
 
